@@ -14,9 +14,8 @@
    Output tokens additionally: "TC" = CDATA section rewritten as escaped text. *)
 EXTENDS XmlInfoset, TLC, Json
 CONSTANTS MaxLen, Vocab, Emit, EmitMod
-VARIABLES inp, depth, rootDone, phase, keep, pos, omit, out,
-          stale, hit       \* history variables that name the known defect K11 (see Known below)
-vars == <<inp, depth, rootDone, phase, keep, pos, omit, out, stale, hit>>
+VARIABLES inp, depth, rootDone, phase, keep, pos, omit, out
+vars == <<inp, depth, rootDone, phase, keep, pos, omit, out>>
 
 NV == Len(Vocab)
 Tok(i) == Vocab[i]
@@ -48,12 +47,12 @@ Gen(t) ==
   /\ inp' = Append(inp, t)
   /\ depth' = CASE Tok(t).k = "ST" -> depth + 1 [] Tok(t).k = "ET" -> depth - 1 [] OTHER -> depth
   /\ rootDone' = (rootDone \/ (depth = 0 /\ Tok(t).k = "VT") \/ (depth = 1 /\ Tok(t).k = "ET"))
-  /\ UNCHANGED <<phase, keep, pos, omit, out, stale, hit>>
+  /\ UNCHANGED <<phase, keep, pos, omit, out>>
 Start(kw) ==
   /\ phase = "gen" /\ depth = 0 /\ rootDone
   /\ phase' = "run" /\ keep' = kw /\ pos' = 1
   /\ omit' = TRUE                      \* omitSpace := true
-  /\ out' = <<>> /\ stale' = FALSE /\ hit' = FALSE
+  /\ out' = <<>>
   /\ UNCHANGED <<inp, depth, rootDone>>
 
 ---------------------------------------------------------------------------------------------
@@ -98,35 +97,29 @@ StepText ==
          d2 == IF dec = "trim" THEN SubSeq(d1, 1, Len(d1) - 1) ELSE d1
      IN /\ omit' = (Len(d1) = 0 \/ (trail /\ dec = "keep"))
         /\ out' = Append(out, [k |-> "TX", c |-> d2])
-        /\ hit' = (hit \/ (stale /\ Len(d1) < Len(d0)))
-        /\ stale' = FALSE
   /\ Advance(1)
 
 \* xml.EscapeCDATAVal: text is used when the escapes cost at most len("<![CDATA[]]>") bytes
 EscCost(c) == FoldLeft(LAMBDA n, x : IF x = 60 THEN n + 3 ELSE IF x = 38 THEN n + 4 ELSE n, 0, c)
 StepCDATAEmpty ==
   /\ Running /\ Cur.k = "CD" /\ Cur.c = <<>>            \* `continue`: nothing written, omitSpace untouched
-  /\ UNCHANGED <<omit, out, stale, hit>> /\ Advance(1)
+  /\ UNCHANGED <<omit, out>> /\ Advance(1)
 StepCDATA ==
   /\ Running /\ Cur.k = "CD" /\ Cur.c # <<>>
   /\ out' = Append(out, [k |-> IF EscCost(Cur.c) <= 12 THEN "TC" ELSE "CD", c |-> Cur.c])
-  /\ omit' = IF IsWs(Cur.c[Len(Cur.c)]) THEN TRUE ELSE omit
-  /\ stale' = (~IsWs(Cur.c[Len(Cur.c)]) /\ omit) /\ UNCHANGED hit
+  /\ omit' = IsWs(Cur.c[Len(Cur.c)])      \* the character data now ends with the CDATA's last character (fix 9bd7820)
   /\ Advance(1)
 StepComment ==
   /\ Running /\ Cur.k = "CM"                            \* no case in the switch: dropped
-  /\ UNCHANGED <<omit, out, stale, hit>> /\ Advance(1)
+  /\ UNCHANGED <<omit, out>> /\ Advance(1)
 StepVerbatim ==
   /\ Running /\ Cur.k \in {"PI", "DT"}
-  /\ out' = Append(out, Cur) /\ UNCHANGED <<omit, hit>>
-  /\ stale' = (stale /\ keep)       \* without KeepWhitespace trimming next to a PI is legitimate anyway
-  /\ Advance(1)
+  /\ out' = Append(out, Cur) /\ UNCHANGED omit /\ Advance(1)
 \* StartTagToken (+ attributes) followed by StartTagCloseToken with its two-token look-ahead
 StepStart ==
   /\ Running /\ Cur.k = "ST"
   /\ omit' = IF keep THEN FALSE ELSE omit
-  /\ stale' = FALSE /\ UNCHANGED hit     \* trimming next to a tag is legitimate (or omitSpace was reset)
-  /\ LET skip == PeekK(0) = "TX" /\ AllRawWs(PeekC(0))
+  /\ LET skip == ~keep /\ PeekK(0) = "TX" /\ AllRawWs(PeekC(0))      \* (fix 68b0b86: not under KeepWhitespace)
          nextK == IF skip THEN PeekK(1) ELSE PeekK(0)
      IN IF nextK = "ET"
         THEN out' = Append(out, [k |-> "VT", c |-> Cur.c]) /\ Advance(IF skip THEN 3 ELSE 2)
@@ -134,19 +127,17 @@ StepStart ==
 StepVoid ==
   /\ Running /\ Cur.k = "VT"
   /\ omit' = IF keep THEN FALSE ELSE omit
-  /\ stale' = FALSE /\ UNCHANGED hit     \* trimming next to a tag is legitimate (or omitSpace was reset)
   /\ out' = Append(out, Cur) /\ Advance(1)
 StepEnd ==
   /\ Running /\ Cur.k = "ET"
   /\ omit' = IF keep THEN FALSE ELSE omit
-  /\ stale' = FALSE /\ UNCHANGED hit     \* trimming next to a tag is legitimate (or omitSpace was reset)
   /\ out' = Append(out, Cur) /\ Advance(1)
 StepEOF ==
   /\ phase = "run" /\ pos > Len(inp)
-  /\ phase' = "done" /\ UNCHANGED <<inp, depth, rootDone, keep, pos, omit, out, stale, hit>>
+  /\ phase' = "done" /\ UNCHANGED <<inp, depth, rootDone, keep, pos, omit, out>>
 
 Init == /\ inp = <<>> /\ depth = 0 /\ rootDone = FALSE /\ phase = "gen" /\ keep = FALSE
-        /\ pos = 0 /\ omit = FALSE /\ out = <<>> /\ stale = FALSE /\ hit = FALSE
+        /\ pos = 0 /\ omit = FALSE /\ out = <<>>
 Next == \/ \E t \in 1..NV : Gen(t)
         \/ \E kw \in BOOLEAN : Start(kw)
         \/ StepText \/ StepCDATAEmpty \/ StepCDATA \/ StepComment \/ StepVerbatim
@@ -189,21 +180,10 @@ Render(toks, isOut) ==
 ---------------------------------------------------------------------------------------------
 (* Constructs on which the real code is known to break the property (known/C06.txt); the
    design model reproduces them, so they are excepted here by their syntactic shape and pinned
-   as known findings on the real code.  Everything else must satisfy XmlEq. *)
-IsTagK(k) == k \in {"ST", "ET", "VT"}
-\* K5: <a> </a>  (blank-only content of an element) under KeepWhitespace
-KnownBlankElement ==
-  keep /\ \E i \in 1..Len(inp) - 2 :
-            Tok(inp[i]).k = "ST" /\ Tok(inp[i+1]).k = "TX" /\ AllRawWs(Tok(inp[i+1]).c) /\ Tok(inp[i+2]).k = "ET"
-Skip(i, ks) == LET RECURSIVE f(_) f(j) == IF j <= Len(inp) /\ Tok(inp[j]).k \in ks THEN f(j + 1) ELSE j IN f(i)
-BlankInitial(j) == /\ j <= Len(inp) /\ Tok(inp[j]).k \in {"TX", "CD"}
-                   /\ Len(Tok(inp[j]).c) > 0 /\ IsWs(Tok(inp[j]).c[1] % 1000)
-\* K11: a CDATA section that does not end in a blank leaves omitSpace as it was (it should clear it),
-\* so when omitSpace was still true the blank that starts the following text is dropped although
-\* nothing but the CDATA characters precede it:  <a><![CDATA[x]]> x</a>  ->  <a>xx</a>.
-\* `hit` = that left-trim was executed (stale = omitSpace is true only because the CDATA did not clear it).
-KnownCdataJoin == hit
-
+   as known findings on the real code.  Everything else must satisfy XmlEq.
+   (K5 blank-only element content under KeepWhitespace and K11 stale omitSpace after CDATA were
+   excepted here until they were fixed in /repo - 68b0b86, 9bd7820; the model now has the fixed
+   behaviour and those documents are ordinary cases again.) *)
 \* "The minified document is well-formed", as far as the token level can tell: character data as
 \* written (text and CDATA rewritten as text, concatenated) never contains "]]>"
 HasSub(s, pat) == \E i \in 1..(Len(s) - Len(pat) + 1) : SubSeq(s, i, i + Len(pat) - 1) = pat
@@ -215,7 +195,7 @@ NoCdataEndInText(toks) == LET w == WrittenText(toks) IN \A i \in 1..Len(w) : ~Ha
 \* then comes from a reference or from a CDATA boundary; decoding / CDATA-to-text writes it literally
 KnownCdataEnd == LET r == Runs(EventsOf(InTokens)) IN \E i \in 1..Len(r) : HasSub(Chars(r[i].atoms), <<93, 93, 62>>)
 
-Known == KnownBlankElement \/ KnownCdataJoin \/ KnownCdataEnd
+Known == KnownCdataEnd
 Holds == XmlEq(EventsOf(InTokens), EventsOf(out), keep) /\ NoCdataEndInText(out)
 DesignRefinesInfoset == phase = "done" => (Holds \/ Known)
 \* the exceptions are not vacuous: each one is needed (checked with the *_probe configurations)
